@@ -29,7 +29,6 @@ let () =
     | id :: "H" :: _meta :: asv :: agc :: ns :: ts :: fs :: rest ->
       let n = ios ns and t = ios ts in
       let froms = list_of_commas fs in
-      let strays = ref [] and all_strays = ref [] in
       let ismf = Array.make n false and isd = Array.make n false and issk = Array.make n false and isbad = Array.make n false
       and sc = Array.make n [] and sj = Array.make n None in
       let rec nodes i rest =
@@ -54,13 +53,16 @@ let () =
       let subj k = match inr k with Some i -> sj.(i) | None -> None in
       let nn = nat_of_int n and tn = nat_of_int t in
       let cfg = { autosave = (asv = "1"); autogc = (agc = "1") } in
+      let idnum = (try int_of_string (String.sub id 1 (String.length id - 1)) with _ -> 0) in
+      let eval seed0 =
+      let strays = ref [] and all_strays = ref [] in
       let st = ref store_empty in
       let buf = Buffer.create 256 in
       (* Go's map iteration orders are not controllable: the model is run with
          pseudo-random orders (seeded by the case id); what is compared is independent
          of them (theorems for index.json / reopening; generator restrictions for the
          AutoGC cascade and the referrer pass of GC) *)
-      let rs = ref ((try int_of_string (String.sub id 1 (String.length id - 1)) with _ -> 0) * 7919 + 17) in
+      let rs = ref seed0 in
       let rnd () = rs := (!rs * 1103515245 + 12345) land 0x3fffffff; (!rs lsr 8) land 0xffff in
       let rec rlist k = if k = 0 then [] else let x = nat_of_int (rnd () mod 13) in x :: rlist (k - 1) in
       let rec rlists n k = if n = 0 then [] else let x = rlist k in x :: rlists (n - 1) k in
@@ -135,7 +137,13 @@ let () =
             tok ^ (if List.mem_assoc tok !strays then "=1" else "=0")) !all_strays) in
           Buffer.add_string buf (Printf.sprintf " C[%s|%s|%s|%s|%s|v%d|x:%s]" o r r r r (if disk_valid !st then 1 else 0) xs)
         | _ -> failwith "op") ops;
-      Printf.printf "%s%s\n" id (Buffer.contents buf)
+      Buffer.contents buf in
+      (* the history is evaluated under two unrelated streams of iteration orders: the
+         compared text must not depend on them (a difference is reported, never hidden) *)
+      let o1 = eval (idnum * 7919 + 17) in
+      let o2 = eval (idnum * 104729 + 3) in
+      if o1 = o2 then Printf.printf "%s%s\n" id o1
+      else Printf.printf "%s ORDER-DEPENDENT-MODEL-OUTCOME%s ///%s\n" id o1 o2
     | id :: "F" :: _fmt :: cl :: "E" :: rest ->
       (* internal/fs/tarfs unit case: F <format> <clean ids> E <raw:kind:content>* Q <path>* *)
       let tbl = Array.of_list (list_of_commas cl) in
